@@ -39,12 +39,15 @@ func (w *waitGroup[T]) Add(elements ...T) {
 	// first increase the counter so that the trigger is not executed before all elements are added
 	w.pendingElementsCounter.Add(int32(len(elements)))
 
-	// then add the elements (and correct the counter if the elements are already present)
+	// then add the elements (and correct the counter if the elements are already present - if a concurrent Done removed
+	// the last pending element in the meantime, then the correction is what brings the counter to zero)
 	for _, element := range elements {
 		if !w.pendingElements.Add(element) {
 			verifYield("waitgroup-add-duplicate")
 
-			w.pendingElementsCounter.Add(-1)
+			if w.pendingElementsCounter.Add(-1) == 0 {
+				w.Trigger()
+			}
 		}
 
 		verifYield("waitgroup-add-inserted")
